@@ -99,6 +99,19 @@ func gcHistory(c *vh.Ctx, i int) {
 			e.Quiesce(6)
 		case 9:
 			e.GC()
+			// every other time the user also deletes an archived revision by hand: it stays around, terminating, until
+			// the ObjectSet controller has finalized it, and the slices it names must survive that long (no PRNG draw)
+			if s%2 == 0 {
+				for _, k := range driver.Keys(e.W.Store, "ObjectSet") {
+					ow := pkomodel.OwnerFrom(e.W.Store.Peek(scen.PKO("ObjectSet").GroupKind(), k.Namespace, k.Name))
+					if ow != nil && ow.Archived && !ow.Deleting {
+						if e.Delete("user", false, scen.PKO("ObjectSet"), k.Namespace, k.Name) {
+							e.Count("c14_archived_revisions_deleted_by_user")
+						}
+						break
+					}
+				}
+			}
 		}
 	}
 	hide = 0
